@@ -1527,23 +1527,3 @@ def run(prop, tier, seed, replay=None, keep=False):
     if prop in RUNNERS:
         return RUNNERS[prop](ctx)
     raise ToolError("no check registered for %s" % prop)
-
-
-def run_replay(ctx, path):
-    with open(path, encoding="utf-8") as f:
-        rp = json.load(f)
-    case = rp["case"]
-    ctx.cases[case["id"]] = case
-    variant = rp.get("variant", "dbg")
-    if variant not in common.VARIANTS:
-        variant = "dbg"
-    paths = run_variant(ctx, variant, [case], events=True)
-    mon = common.monitor(ctx.prop, paths, ctx.dir, workers_each=1, parallel=1)
-    for v in mon["verdicts"]:
-        print("VERDICT %s" % (v,), flush=True)
-    judge(ctx, variant, mon)
-    rc = 0
-    for clause, cid, detail, variant in ctx.violations:
-        print("VIOLATION property=%s replay=%s" % (ctx.prop, path), flush=True)
-        rc = 1
-    return rc
